@@ -44,10 +44,16 @@ Definition c11_eval (h : hcase) : nat := bits (corr_ok h) (c11_final (h_final h)
    harness/drivers/async_tasks.py).  The sequential model has no operation for them; only the state
    dumps taken when the server is quiescent (no task runnable; the last one is the final state) are
    observed, and each of them must satisfy the final-state clause c11_final. *)
-Record qcase := mkQ { q_dumps : list sdump }.
-Definition c11q_ok (q : qcase) : bool := forallb c11_final (q_dumps q).
+(* q_tasks: per quiescent point, the number of FINISHED handler tasks of departed clients that are still alive
+   after a garbage collection (wherever the reference is kept, e.g. async_server.task_reference_holder): a
+   finished task keeps its exception, traceback, frames, the sid and the payload of its client. *)
+Record qcase := mkQ { q_dumps : list sdump; q_tasks : list nat }.
+Definition no_retained_tasks (q : qcase) : bool := forallb (Nat.eqb 0) (q_tasks q).
+Definition c11q_ok (q : qcase) : bool := forallb c11_final (q_dumps q) && no_retained_tasks q.
 Definition kinds_mask (ks : list nat) : nat := fold_right (fun k acc => Nat.pow 2 k + acc)%nat 0%nat (nodup Nat.eq_dec ks).
-(* 0 = fine; otherwise bit 2 (property) and, from bit 3 on, the kinds of residue (c11_kinds) over all dumps *)
+(* 0 = fine; otherwise bit 2 (property) and, from bit 3 on, the kinds of residue over all dumps
+   (c11_kinds 1..7, and 8 = retained finished handler tasks) *)
 Definition c11q_eval (q : qcase) : nat :=
   if c11q_ok q then 0%nat
-  else (2 + 2 * kinds_mask (flat_map c11_kinds (filter (fun d => negb (c11_final d)) (q_dumps q))))%nat.
+  else (2 + 2 * kinds_mask (flat_map c11_kinds (filter (fun d => negb (c11_final d)) (q_dumps q)) ++
+                            (if no_retained_tasks q then [] else [8%nat])))%nat.
